@@ -166,9 +166,9 @@ def checkDesiredLabels (c : Cfg) (selector : Selector) (parentUid : String) (o :
       let labels := (m'.getD []).filterMap (fun kv => kv.2.str?.map (fun s => (kv.1, s)))
       if selector.matches labels then .ok o' else .error "labels on desired child don't match parent selector"
 
-/-- the part of `syncParentObject` after the hook answered and the resync was queued:
-    finalizer removal, label invariant, children, status -/
-def compositeTail (c : Cfg) (parent : J) (observed : ObjMap) (resp : CompResp) : PE Unit := do
+/-- after the hook answered and the resync was queued: finalizer removal and the label invariant;
+    yields the (possibly refreshed) parent and the desired children -/
+def compositePrep (c : Cfg) (parent : J) (resp : CompResp) : PE (J × ObjMap) := do
   -- nil entries were dropped by callHook
   let children := resp.children.filterMap id
   let parent ←
@@ -180,24 +180,38 @@ def compositeTail (c : Cfg) (parent : J) (observed : ObjMap) (resp : CompResp) :
     else pure parent
   let selector ← PE.ofExcept (c.makeSelector parent)
   let children ← PE.ofExcept (children.mapM (checkDesiredLabels c selector (getUID parent)))
-  let desired : ObjMap := children.foldl (fun acc o => acc.insertUniform o) []
+  pure (parent, children.foldl (fun acc o => acc.insertUniform o) [])
+
+def Cfg.ssaManager (c : Cfg) : Option String := if c.ssa then some "metacontroller" else none
+
+/-- children, then status: the status write is attempted whatever happened to the children -/
+def compositeAct (c : Cfg) (parent : J) (observed desired : ObjMap) (status : Option KVs) (memo : Memo) : Prog (Memo × Except Err Unit) := do
   let parentRef := controllerRefTo (getAPIVersion parent) (getKind parent) parent
-  let manageErrs ←
+  let (manageErrs, memo) ←
     if !isDeleting parent || c.finalizer.shouldFinalize parent then
-      PE.lift (manageChildren Generated.knownMergeKeys Generated.objectMetaSystemFields c.children c.kindTable parentRef observed desired)
-    else pure []
-  let st ← PE.lift (updateParentStatus c parent resp.status)
+      manageChildren Generated.knownMergeKeys Generated.objectMetaSystemFields c.children c.ssaManager c.kindTable parentRef observed desired memo
+    else pure ([], memo)
+  let st ← updateParentStatus c parent status
   match st with
-  | .error "NotFound" | .error "Conflict" => pure ()
-  | .error e => PE.fail s!"can't update status: {e}"
+  | .error "NotFound" | .error "Conflict" => pure (memo, .ok ())
+  | .error e => pure (memo, .error (.fail s!"can't update status: {e}"))
   | .ok _ =>
-    if manageErrs.isEmpty then pure () else PE.fail "can't reconcile children"
+    if manageErrs.isEmpty then pure (memo, .ok ()) else pure (memo, .error (.fail "can't reconcile children"))
+
+def compositeTail (c : Cfg) (parent : J) (observed : ObjMap) (resp : CompResp) (memo : Memo) : Prog (Memo × Except Err Unit) := do
+  let p ← compositePrep c parent resp
+  match p with
+  | .error e => pure (memo, .error e)
+  | .ok (parent, desired) => compositeAct c parent observed desired resp.status memo
 
 /-- delayed requeue requested by the hook (milliseconds) -/
 def resyncOps (resp : CompResp) : List Int := if resp.resyncAfter > 0 then [resp.resyncAfter] else []
 
-/-- result of `syncParentObject`: queue operations made on the way + how it ended -/
-abbrev SyncRes := List Int × Except Err Unit
+/-- result of `syncParentObject`: queue operations made on the way, the server-side-apply memo, how it ended -/
+structure SyncRes where
+  after : List Int
+  memo : Memo
+  result : Except Err Unit
 
 /-- everything up to and including the hook call -/
 def compositeHead (c : Cfg) (cache : Cache) (parent : J) : PE (Option (J × ObjMap × CompResp)) := do
@@ -213,15 +227,15 @@ def compositeHead (c : Cfg) (cache : Cache) (parent : J) : PE (Option (J × ObjM
       let resp ← callHookComposite c parent observed []
       pure (some (parent, observed, resp))
 
-/-- `syncParentObject` without rolling strategies -/
-def syncParentObject (c : Cfg) (cache : Cache) (parent : J) : Prog SyncRes := do
+/-- `syncParentObject` without rolling strategies and without related objects -/
+def syncParentObject (c : Cfg) (cache : Cache) (parent : J) (memo : Memo) : Prog SyncRes := do
   let h ← compositeHead c cache parent
   match h with
-  | .error e => pure ([], .error e)
-  | .ok none => pure ([], .ok ())
+  | .error e => pure { after := [], memo, result := .error e }
+  | .ok none => pure { after := [], memo, result := .ok () }
   | .ok (some (parent, observed, resp)) =>
-    let t ← compositeTail c parent observed resp
-    pure (resyncOps resp, t)
+    let (memo, t) ← compositeTail c parent observed resp memo
+    pure { after := resyncOps resp, memo, result := t }
 
 inductive Outcome where
   | ok
@@ -229,26 +243,27 @@ inductive Outcome where
   | panic
   deriving Repr, BEq, DecidableEq, Inhabited
 
-/-- what the work queue sees of one `processNextWorkItem` -/
+/-- what the work queue (and the process-global memo) sees of one `processNextWorkItem` -/
 structure Final where
   outcome : Outcome
   /-- addAfter delays (ms), in order -/
   after : List Int
-  deriving Repr, Inhabited
+  memo : Memo := []
+  deriving Inhabited
 
 def finalOf (r : SyncRes) : Final :=
-  match r.2 with
-  | .ok () => { outcome := .ok, after := r.1 }
-  | .error (.tooMany sec) => { outcome := .ok, after := r.1 ++ [sec * 1000] }
-  | .error (.fail _) => { outcome := .error, after := r.1 }
-  | .error (.panic _) => { outcome := .panic, after := r.1 }
+  match r.result with
+  | .ok () => { outcome := .ok, after := r.after, memo := r.memo }
+  | .error (.tooMany sec) => { outcome := .ok, after := r.after ++ [sec * 1000], memo := r.memo }
+  | .error (.fail _) => { outcome := .error, after := r.after, memo := r.memo }
+  | .error (.panic _) => { outcome := .panic, after := r.after, memo := r.memo }
 
 /-- `sync(key)` + `processNextWorkItem` -/
-def syncComposite (c : Cfg) (cache : Cache) (ns name : String) : Prog Final :=
+def syncComposite (c : Cfg) (cache : Cache) (ns name : String) (memo : Memo := []) : Prog Final :=
   match cache.parents.find? (fun p => getNamespace p == ns && getName p == name) with
-  | none => pure { outcome := .ok, after := [] }
+  | none => pure { outcome := .ok, after := [], memo }
   | some parent => do
-    let r ← syncParentObject c cache parent
+    let r ← syncParentObject c cache parent memo
     pure (finalOf r)
 
 end Mc
